@@ -28,6 +28,7 @@ func init() {
 		sliceFifoShapes(c, "C20.2c")
 		c20Bounds(c)
 		c20Emitter(c)
+		c20EmitterBasics(c)
 		c20Ids(c, "C20.5")
 		listenerIdentity(c, "C20.8")
 		mapAggregatesSnapshot(c, "C20.9")
@@ -1559,4 +1560,70 @@ func c20MapRecheck(c *core.Ctx, R string) {
 		}
 	}
 	c.Need(R, "double-checked locking obligations in types.Map", n, 25)
+}
+
+// c20EmitterBasics — C20.4b (mutation audit round 4): Clear really clears, and a
+// nil listener in the argument list is skipped without dropping the ones after it.
+func c20EmitterBasics(c *core.Ctx) {
+	const R = "C20.4b"
+	c.Rule(R, "emitter basics: Clear() clears the listener table on every path; in AddListener and Once the nil test of a listener only skips that listener — its true edge neither leaves the loop nor returns, so the listeners after a nil one are still registered")
+	if u := c.Fn(R, "types.(*emmiter).Clear"); u != nil {
+		g := u.Graph()
+		ok := false
+		for _, cl := range fieldCalls(u, "emmiter.evtListeners") {
+			if cl.Name != "Clear" || cl.Deferred {
+				continue
+			}
+			ok = true
+			for _, r := range returnsIn(u) {
+				ok = ok && g.Dominates(cl.Loc, r.Loc)
+			}
+		}
+		c.Check(R, "types.(*emmiter).Clear/clears-the-table", u.Pos(), ok, "evtListeners.Clear() on every path")
+	}
+	for _, k := range []string{"types.(*emmiter).AddListener", "types.(*emmiter).Once"} {
+		u := c.Fn(R, k)
+		if u == nil {
+			continue
+		}
+		for _, w := range u.WithHelpers() {
+			ast.Inspect(w.Body, func(n ast.Node) bool {
+				rs, isR := n.(*ast.RangeStmt)
+				if !isR {
+					return true
+				}
+				// the loop over the variadic listeners
+				if !isLocal(w.Info(), rs.X, paramName(u, 1)) && w == u {
+					return true
+				}
+				leaves := false
+				ast.Inspect(rs.Body, func(x ast.Node) bool {
+					is, isIf := x.(*ast.IfStmt)
+					if !isIf {
+						return true
+					}
+					be, isB := ast.Unparen(is.Cond).(*ast.BinaryExpr)
+					if !isB || be.Op != token.EQL || !(core.IsNil(w.Info(), be.Y) || core.IsNil(w.Info(), be.X)) {
+						return true
+					}
+					ast.Inspect(is.Body, func(y ast.Node) bool {
+						switch s := y.(type) {
+						case *ast.FuncLit:
+							return false
+						case *ast.ReturnStmt:
+							leaves = true
+						case *ast.BranchStmt:
+							if s.Tok == token.BREAK || s.Tok == token.GOTO {
+								leaves = true
+							}
+						}
+						return true
+					})
+					return true
+				})
+				c.Check(R, k+"/nil-listener-only-skipped", rs.Pos(), !leaves, "the nil test continues with the next listener")
+				return true
+			})
+		}
+	}
 }
